@@ -790,7 +790,7 @@ def run(ctx, build, verdict, ev):
         lits_a, lits_b, index = [], [], []
 
     samples = []
-    n_engines, n_batches = ctx.n(150, 4000), ctx.n(3, 6)
+    n_engines, n_batches = ctx.n(150, 4000), (6 if ctx.tier == "thorough" else 3)
     for kk in range(n_engines):
         desc, profile = gen_engine(ctx.rng)
         stats["engines"] += 1
@@ -811,7 +811,7 @@ def run(ctx, build, verdict, ev):
         if len(lits_a) >= 1800:
             flush()
     # targeted stream: lock-previous outputs with +-inf / undefined rows inside one batch
-    stats["cascade_stream"] = {"engines": 0, "batches": 0, "inf_then_nan_outputs": 0}
+    stats["cascade_stream"] = {"engines": 0, "batches": 0}
     for kk in range(ctx.n(40, 1200)):
         desc = gen_cascade_engine(ctx.rng)
         stats["cascade_stream"]["engines"] += 1
@@ -827,8 +827,9 @@ def run(ctx, build, verdict, ev):
         if len(lits_a) >= 1800:
             flush()
     set_lits, set_index = setter_cases(ctx, fl, ctx.n(150, 1500))
-    pow_probe(ctx, fl, verdict, stats, ctx.n(4000, 60000))
-    kernel_probe(ctx, fl, verdict, stats, ctx.n(2000, 20000), ctx.n(3, 6))
+    thorough = ctx.tier == "thorough"  # fixed sizes: these probes are not scaled up when the sources changed
+    pow_probe(ctx, fl, verdict, stats, 60000 if thorough else 3000)
+    kernel_probe(ctx, fl, verdict, stats, 20000 if thorough else 2000, 6 if thorough else 3)
     examples_run(ctx, fl, verdict, stats, ctx.n(16, 64))
     flush(set_lits, set_index)
     ncases = dict(counts)
